@@ -173,8 +173,25 @@ class LoggingMonitor(pp.TransferMonitor):
 
     def notify_done(self, transfer_id):
         self.w.director.point(self.w.director.occurrence(f't{transfer_id}/pp:notify_done'), 'before')
-        self.w.log.add('pp.done', label=f't{transfer_id}',
-                       jobs_left=self._transfer_states[transfer_id].jobs_to_complete)
+        snap = {}
+        obs = getattr(self, 'obs', None)
+        if obs is not None and transfer_id < len(obs.xfers):
+            x = obs.xfers[transfer_id]
+            import os as _os
+            from .scenario import TEMP_RE
+
+            d = _os.path.dirname(x.dest)
+            base = _os.path.basename(x.dest)
+            snap['temps'] = [n for n in _os.listdir(d) if n.startswith(base + '.') and TEMP_RE.search(n)]
+            try:
+                with open(x.dest, 'rb') as f:
+                    cur = f.read()
+            except FileNotFoundError:
+                cur = None
+            snap['dest'] = 'absent' if cur is None else ('complete' if cur == x.data else ('prev' if cur == x.prev else 'partial'))
+        self.w.log.add('pp.done', label=f't{transfer_id}', jobs_left=self._transfer_states[transfer_id].jobs_to_complete,
+                       exception=repr(self._transfer_states[transfer_id].exception) if self._transfer_states[transfer_id].exception else None,
+                       **snap)
         return super().notify_done(transfer_id)
 
     def get_exception(self, transfer_id):
@@ -310,6 +327,170 @@ def run_procpool(spec):
                 obs.hang = r
                 obs.hang_what = 'pp-shutdown'
                 obs.stacks = watchdog.all_stacks()
+    finally:
+        pp.GetObjectWorker._IO_CHUNKSIZE = old_chunk
+    return _finish(obs)
+
+
+# ------------------------------------------------- real ProcessPoolDownloader, thread-backed
+class _FakeManager:
+    def shutdown(self):
+        pass
+
+
+def _thread_backed(proc, client, name):
+    """Make a (not started) BaseS3TransferProcess run its _do_run loop in a thread."""
+    proc._client = client
+    th = threading.Thread(target=proc._do_run, name=name, daemon=True)
+    proc.start = th.start
+    proc.join = th.join
+    proc._vf_thread = th
+    return proc
+
+
+def make_inproc_downloader(world, client, osu, tcfg, monitor):
+    class InProcDownloader(pp.ProcessPoolDownloader):
+        """The real ProcessPoolDownloader (download_file / shutdown / __exit__ code paths) with
+        its submitter and workers running as threads over queue.Queue and an in-process monitor."""
+
+        def _start_transfer_monitor_manager(self):
+            self._manager = _FakeManager()
+            self._transfer_monitor = monitor
+
+        def _start_submitter(self):
+            self._submitter = _thread_backed(pp.GetObjectSubmitter(
+                transfer_config=self._transfer_config, client_factory=self._client_factory, transfer_monitor=self._transfer_monitor,
+                osutil=self._osutil, download_request_queue=self._download_request_queue, worker_queue=self._worker_queue),
+                client, 'vf-pp-submitter')
+            self._submitter.start()
+
+        def _start_get_object_workers(self):
+            for i in range(self._transfer_config.max_request_processes):
+                wk = _thread_backed(pp.GetObjectWorker(queue=self._worker_queue, client_factory=self._client_factory,
+                                                       transfer_monitor=self._transfer_monitor, osutil=self._osutil),
+                                    client, f'vf-pp-worker{i}')
+                wk.start()
+                self._workers.append(wk)
+
+    d = InProcDownloader(config=tcfg)
+    d._download_request_queue = queue.Queue(1000)
+    d._worker_queue = queue.Queue(1000)
+    d._osutil = osu
+    return d
+
+
+def run_procpool_full(spec):
+    """Like run_procpool but through the real ProcessPoolDownloader object:
+    spec['exit'] in {'shutdown', 'with', 'with_kbi'}; futures' result() is collected
+    after the exit returned (it must not block then)."""
+    obs = _base_obs(spec)
+    w = obs.world
+    cfgd = spec.get('config', {})
+    tcfg = pp.ProcessTransferConfig(multipart_threshold=cfgd.get('multipart_threshold', 16), multipart_chunksize=cfgd.get('multipart_chunksize', 8),
+                                    max_request_processes=cfgd.get('workers', 2))
+    c = _Cfg()
+    c.multipart_threshold = tcfg.multipart_threshold
+    c.multipart_chunksize = tcfg.multipart_chunksize
+    c.num_download_attempts = pp.GetObjectWorker._MAX_ATTEMPTS
+    obs.config = c
+    monitor = LoggingMonitor(w)
+    obs.monitor = monitor
+    labels = {}
+    osu = PPOSUtils(w, labels)
+    obs.osutil = osu
+    old_chunk = pp.GetObjectWorker._IO_CHUNKSIZE
+    if 'io_chunksize' in cfgd:
+        pp.GetObjectWorker._IO_CHUNKSIZE = cfgd['io_chunksize']
+    xfers = [Xfer(i, t) for i, t in enumerate(spec['transfers'])]
+    obs.xfers = xfers
+    obs.dirwatch = None
+    obs.exit_exc = None
+    obs.done_at_exit = {}
+    monitor.obs = obs
+    try:
+        if spec.get('dirwatch'):
+            from .oracles import DirWatch
+
+            obs.dirwatch = DirWatch(obs)
+            w.director.hooks.append(obs.dirwatch.hook)
+        for x in xfers:
+            t = x.spec
+            x.data = payload(spec.get('seed', 0) * 1000 + x.idx, t.get('size', 0))
+            w.s3.labels[(BUCKET, x.key)] = x.label
+            w.s3.objects[(BUCKET, x.key)] = x.data
+            path = os.path.join(obs.tmpdir, f'dst-{x.idx}')
+            labels[path] = x.label
+            if t.get('preexisting'):
+                x.prev = b'previous-content-' + str(x.idx).encode()
+                with open(path, 'wb') as f:
+                    f.write(x.prev)
+            x.dest = path
+        dl = make_inproc_downloader(w, obs.client, osu, tcfg, monitor)
+        obs.downloader = dl
+        cp = (spec.get('plan') or {}).get('cancel')
+
+        def do_cancel(cpl):
+            ev = w.log.add('cancel.begin', how=cpl.get('how', 'future.cancel'), target=cpl.get('target', 0))
+            obs.cancel_events.append(ev)
+            fx = xfers[cpl.get('target', 0)]
+            if fx.future is not None:
+                fx.future.cancel()
+            w.log.add('cancel.end')
+
+        w.director.on_cancel_point = do_cancel
+        mode = spec.get('exit', 'shutdown')
+
+        def session():
+            def submit_all():
+                for x in xfers:
+                    t = x.spec
+                    w.log.add('submit.begin', label=x.label)
+                    x.future = dl.download_file(BUCKET, x.key, x.dest, extra_args=dict(t.get('extra_args') or {}) or None,
+                                                expected_size=t.get('expected_size'))
+                    w.log.add('submit.end', label=x.label)
+                if cp and cp.get('at') == '@after_submit':
+                    do_cancel(cp)
+            if mode == 'shutdown':
+                submit_all()
+                w.log.add('shutdown.begin')
+                dl.shutdown()
+            elif mode == 'with':
+                with dl:
+                    submit_all()
+                    w.log.add('shutdown.begin')
+            elif mode == 'with_kbi':
+                try:
+                    with dl:
+                        submit_all()
+                        ev = w.log.add('cancel.begin', how='with_kbi')
+                        obs.cancel_events.append(ev)
+                        w.log.add('shutdown.begin')
+                        raise KeyboardInterrupt()
+                except KeyboardInterrupt:
+                    pass
+            obs.done_at_exit = {x.label: (x.future.done() if x.future is not None else None) for x in xfers}
+            w.log.add('shutdown.end')
+
+        ob = _await_call(obs, session, 'pp-session')
+        if ob is not None:
+            obs.exit_exc = ob.exc
+            obl = []
+            for x in xfers:
+                if x.future is None:
+                    continue
+                o = watchdog.Obligation(lambda x=x: scenario._collect(x, w.log), name=f'result-{x.label}').start()
+                x.result_ob = o
+                obl.append(o)
+            r = watchdog.await_or_deadlock(lambda: all(o.done.is_set() for o in obl), w.director, w.log,
+                                           wall_timeout=spec.get('wall_timeout', 30.0))
+            scenario._record_outcomes(xfers)
+            if r != 'done':
+                obs.hang = r
+                obs.hang_what = 'pp-result-after-exit'
+                obs.stacks = watchdog.all_stacks()
+            with watchdog.polling():
+                watchdog.wait_quiescent(3.0, director=w.director)
+            obs.live_threads = [t.name for t in threading.enumerate() if t.name.startswith('vf-pp-') and t.is_alive()]
     finally:
         pp.GetObjectWorker._IO_CHUNKSIZE = old_chunk
     return _finish(obs)
